@@ -762,4 +762,80 @@ func c16handshakeCut(c *core.Ctx, dev int) {
 	}
 }
 
+// c05handshakeStall: a client with a will vanishes between its CONNECT and the CONNACK while
+// a subscriber of the will topic has stopped reading and its outgoing ring is full, so the
+// will cannot be delivered for the time being.  That holds up the vanished connection only:
+// another client that connects now is accepted, and publishes between healthy clients go on.
+func c05handshakeStall(c *core.Ctx, dev int) {
+	if !c.Mine() {
+		return
+	}
+	if c.Expired() || c.HasViolation() {
+		return
+	}
+	name := "CONNECT with a will, gone before the CONNACK, while a subscriber of the will topic is stalled with a full ring; then a new client connects"
+	body := func() {
+		t := newTD()
+		wt := t.connect("W", 0, 65535, false)
+		if wt == nil {
+			return
+		}
+		t.subscribe("W", "ok/#", 0)
+		p := t.connect("P", 0, 65535, false)
+		// S subscribes to the will topic and to a topic P floods, and stops reading
+		st := t.connect("S", 600, 65535, false)
+		if p == nil || st == nil {
+			return
+		}
+		st.rc.Send(&refcodec.Packet{Type: refcodec.SUBSCRIBE, ID: 1, Topics: [][]byte{[]byte("will/#"), []byte("flood")}, QoSs: []byte{0, 0}})
+		t.settleExcept()
+		for i := 0; i < 3; i++ {
+			p.rc.Send(bigPub("flood", 8000, byte(i)))
+			t.settleExcept()
+		}
+		if vsched.Failed() {
+			return
+		}
+		x, err := t.w.Dial("X")
+		if err != nil {
+			return
+		}
+		x.Dead = true
+		vsched.Mark()
+		x.Conn.Write(refcodec.Encode(ConnectPacket(ConnectOpts{ClientID: "x", Clean: true, KeepAlive: 65535, Will: &Will{"will/x", big(9000, 9), 0, false}})))
+		x.Conn.Close()
+		t.settleExcept()
+		// a new client
+		n, err := t.w.Dial("N")
+		if err != nil {
+			vsched.Failf("harness: dial: %v", err)
+			return
+		}
+		nc := &tdConn{name: "N", rc: n, prefix: "0.1.5", clean: true, cid: "n"}
+		t.conns["N"] = nc
+		t.order = append(t.order, nc)
+		n.Send(ConnectPacket(ConnectOpts{ClientID: "n", Clean: true, KeepAlive: 65535}))
+		t.settleExcept()
+		if ps := n.Take(); len(ps) != 1 || ps[0].Type != refcodec.CONNACK || ps[0].ReturnCode != 0 {
+			vsched.Failf("a will that cannot be delivered yet (its subscriber stopped reading) keeps a new client from connecting: its CONNECT was answered by %s", Describe(ps))
+			return
+		}
+		n.Send(&refcodec.Packet{Type: refcodec.PUBLISH, Topic: []byte("ok/1"), Payload: []byte("still-served")})
+		t.settleExcept()
+		if k := len(publishesOn(wt.rc.Take(), "ok/1")); k != 1 {
+			vsched.Failf("the witness received %d copies of a publish of the new client", k)
+			return
+		}
+		if t.badStream() {
+			return
+		}
+		vsched.Logf("ok")
+	}
+	st := c.RunSched(explore.SchedOpts{Name: name, Bound: -1, DevBound: dev, Cache: true, UseMark: true, Body: body, MaxPoints: 100000, Check: schedCheck},
+		func(v *explore.Violation) string { return "C05 " + name + " :: " + violClass(v.Message) })
+	if st != nil {
+		c.Rep.Sample(map[string]interface{}{"scenario": name, "deviations": dev, "executions": st.Executions, "states": st.States})
+	}
+}
+
 func init() { core.Register("C16", C16) }
